@@ -1,10 +1,12 @@
 (* C15 — constraint text round-trips; range operators and bumps are monotone.
-   Proved here: the bump and range-operator half.  The text round trip is decided by the
-   correspondence run (str() of every model result equals the implementation's, byte for byte) and
-   the oracle (re-parse and compare on regular probes; reference specifier syntax), not by a theorem. *)
+   Proved here: the bump and range-operator half, from the TEXT of the clause for every version literal in normal form
+   (C15_operator_text), and the text round trip of every single clause (C04_clause_text; C03_text_roundtrip for the
+   version inside it).  The text round trip of comma sets, '||' unions, wildcards and exclusions is decided by the
+   correspondence run (str() of every model result equals the implementation's, byte for byte) and the oracle
+   (re-parse and compare on regular probes; reference specifier syntax), not by a theorem. *)
 From Coq Require Import List Bool NArith String.
 From PC Require Import Base.Cmp Base.Result Model.Pep440 Spec.Pep440Spec Spec.Specifier Model.VConstraint
-     Proofs.VersionFacts Proofs.RangeSpec Proofs.SpecifierAgree Proofs.Bumps Proofs.Compat.
+     Proofs.VersionFacts Proofs.RangeSpec Proofs.SpecifierAgree Proofs.Bumps Proofs.Compat Proofs.Pep440RoundTrip Proofs.ClauseText.
 Import ListNotations.
 Open Scope string_scope.
 
@@ -39,7 +41,15 @@ Theorem C15_tilde : forall v, wf v = true ->
 Proof. exact tilde_spec. Qed.
 Print Assumptions C15_tilde.
 
-(* the parser builds exactly caret_range / tilde_range, and prints what it parsed *)
+(* the parser builds exactly caret_range / tilde_range / compat_range from the text of the clause, for every version literal in
+   normal form (every printable v, i.e. everything the version parser returns); [reparsed v] is v with the normal form as text *)
+Theorem C15_operator_text : forall m v, printable v = true ->
+  parse_single m ("^" ++ to_string v) = Ok (VOne (caret_range (reparsed v))) /\
+  parse_single m ("~" ++ to_string v) = Ok (VOne (tilde_range (reparsed v))) /\
+  parse_single m ("~=" ++ to_string v) = Ok (VOne (compat_range (reparsed v))).
+Proof. intros m v P. repeat split; [exact (clause_caret m v P)|exact (clause_tilde m v P)|exact (clause_compatible m v P)]. Qed.
+Print Assumptions C15_operator_text.
+(* instances with blanks and a pre-release, and what is printed back *)
 Example C15_desugar :
   exists v, parse "0.2.3rc1" = Some v /\ wf v = true /\
     parse_single false "^0.2.3rc1" = Ok (VOne (caret_range v)) /\
